@@ -8,6 +8,8 @@ import Codec.Spec
 import Codec.Examples
 import Codec.Lemmas
 import Codec.Props
+import Codec.Render
+import Codec.PropsRender
 import Codec.GenEndpoints
 import Codec.EndpointsSpec
 import Codec.PropsEndpoints
